@@ -1,5 +1,6 @@
 import SnaxVerif.Lemmas.AccfgDce
 import SnaxVerif.Props.C07
+import SnaxVerif.Lemmas.AccfgLoopOverlap
 /-!
 # C01 — configuration deduplication never changes what a launch observes
 
@@ -62,6 +63,16 @@ theorem pull_preserves (path : List Nat) (a : AccId) (fs : List (Field × Var)) 
     (execB cfg false b' st).tr = (execB cfg false b st).tr :=
   insert_setup_trace cfg path a fs b b' bg h' hg hwf hn hng hwfg hok st
 
+/-- The same with the taint analysis as side condition (`okTB`: no launch and no effectful call of the result sees a register
+field last written by the inserted setup before a real setup re-writes it) — it does not need the launches of *other*
+accelerators, or of earlier code, to be total, and no well-formedness of the ghost variant. -/
+theorem pull_preserves_taint (path : List Nat) (a : AccId) (fs : List (Field × Var)) (b b' bg : Block) (cfg : Cfg)
+    (h' : insertAt path (.setup a fs) b = some b') (hg : insertAt path (.ghost a fs) b = some bg)
+    (hwf : wfB b = true) (hn : nodupB b = true) (hng : noGhostB b' = true)
+    (hok : okTB cfg.fields bg [] = true) (st : St) :
+    (execB cfg false b' st).tr = (execB cfg false b st).tr :=
+  insert_setup_trace_taint cfg path a fs b b' bg h' hg hwf hn hng hok st
+
 /-- The greedy driver's erase of a trivially dead statement (side-effect free, results unused — `dceSide`
 is that "unused" condition, evaluated on every real dce step): registers and trace are unchanged. -/
 theorem dce_preserves (path : List Nat) (b b' : Block) (h : applyRule .dce path b = some b')
@@ -79,6 +90,9 @@ inductive StepOK (cfg : Cfg) : Block → Block → Prop where
       insertAt path (.setup a fs) b = some b' → insertAt path (.ghost a fs) b = some bg →
       wfB b = true → nodupB b = true → noGhostB b' = true → wfB bg = true → okBb cfg.fields bg noFacts = true →
       StepOK cfg b b'
+  | pullT (j path a fs bg) {b b'} : applyRule (.pull j) path b = some b' →
+      insertAt path (.setup a fs) b = some b' → insertAt path (.ghost a fs) b = some bg →
+      wfB b = true → nodupB b = true → noGhostB b' = true → okTB cfg.fields bg [] = true → StepOK cfg b b'
   | dce (path) {b b'} : applyRule .dce path b = some b' → dceSide path b b' = true → StepOK cfg b b'
 
 /-- Any sequence of validated steps, in any order (whatever the greedy driver chooses). -/
@@ -94,6 +108,7 @@ theorem step_preserves {cfg : Cfg} {b b' : Block} (h : StepOK cfg b b') (st : St
   | elide path h hwf hn => rw [elide_preserves path _ _ h hwf hn]
   | hoist path h hwf hn => rw [hoist_preserves path _ _ h hwf hn]
   | pull j path a fs bg _ h' hg hwf hn hng hwfg hok => exact pull_preserves path a fs _ _ bg cfg h' hg hwf hn hng hwfg hok st
+  | pullT j path a fs bg _ h' hg hwf hn hng hok => exact pull_preserves_taint path a fs _ _ bg cfg h' hg hwf hn hng hok st
   | dce path h hside => exact dce_preserves path _ _ h hside cfg st
 
 /-- **C01.** Deduplication never changes the sequence of launches/awaits/calls nor the register contents any
